@@ -321,6 +321,9 @@ static void after_call(struct ep *x, int call, int kind, int err)
             ok = (kind == K_ERR && err == EPIPE) || (call == C_RECV && kind == K_EOF);
         else
             ok = kind == K_ERR && err == fe;
+        /* the failure OpenSSL swallowed leaves a truncated TLS stream behind: "protocol error" is an honest report */
+        if (!ok && x->fault_deferrable && kind == K_ERR && err == EPROTO)
+            ok = 1;
         if (!ok) {
             const char *got = kind == K_ERR ? (err == EPIPE ? "EPIPE" : "other-errno") : res;
             snprintf(sig, sizeof sig, "C06/fault-not-reported/injected=%s/call=%s/got=%s/tp=%s",
@@ -338,7 +341,8 @@ static void after_call(struct ep *x, int call, int kind, int err)
             if (g_T) {
                 ok = kind == K_ERR && err == x->term_errno;
                 /* DESIGN C06 Care (i): an orderly peer close first met by an explicit send/finish */
-                if (!ok && x->peer_end == END_ORDERLY && x->term_call != C_RECV && call == C_RECV &&
+                if (!ok && (x->peer_end == END_ORDERLY || (x->peer_end == END_RESET && x->peer_notify)) &&
+                    x->term_call != C_RECV && call == C_RECV &&
                     (kind == K_OK || kind == K_EOF || (kind == K_ERR && err == EPIPE)))
                     ok = 1;
             } else
@@ -353,6 +357,16 @@ static void after_call(struct ep *x, int call, int kind, int err)
                     ok = kind == K_EOF || kind == K_OK || kind == K_AGAIN || (kind == K_ERR && err == EPIPE);
             } else
                 ok = kind == K_OK || (kind == K_ERR && err == EPIPE);
+        }
+        /* a raw TLS peer that ends its stream without close_notify: "closed by the peer" (met by a write) and
+           "truncated TLS stream" (met by the read that tries to drain) are both true; a closed-class report may be
+           superseded once by EPROTO, which must stick from then on */
+        if (!ok && x->peer_raw && g_tls && x->term_closed_class && !x->eof_seen && kind == K_ERR && err == EPROTO) {
+            x->term_closed_class = 0;
+            x->term_kind = K_ERR;
+            x->term_errno = EPROTO;
+            x->term_call = call;
+            ok = 1;
         }
         if (!ok) {
             snprintf(sig, sizeof sig, "C06/not-sticky/first=%s:%s/then=%s:%s/tp=%s", CALLN[x->term_call],
@@ -563,7 +577,8 @@ static void ep_close(struct ep *x)
     x->s = NULL;
     int kind = (unread > 0 || x->fault_errno) ? END_RESET : (x->dirty_close ? END_DIRTY : END_ORDERLY);
     if (g_T && !was_linked)
-        kind = END_ORDERLY;      /* the acceptor-to-be finds what was written, then the end of the stream */
+        kind = END_DIRTY;        /* not yet accepted by the other side: it will find what was written and then, depending
+                                    on the call, the end of the stream (recv) or a reset (send) - not judged */
     if (p->name) {
         if (g_tls && !x->term_seen)
             p->peer_notify = 1;
@@ -859,6 +874,8 @@ static void raw_die(struct ep *a)
             ;
     }
     ioctl(g_raw_fd, FIONREAD, &unread);
+    if (env_conn_fd_peer(g_raw_fd) < 0)
+        set_peer_end(a, END_DIRTY);      /* the XCM server has not accepted yet: see ep_close */
     set_peer_end(a, unread > 0 ? END_RESET : END_ORDERLY);
     mc_observe("RAW peer dies after %d of %d bytes (%s), %d complete message(s)/%lld byte(s) deliverable", g_raw_written,
                g_outlen, unread > 0 ? "reset: unread data" : "orderly FIN", a->in->n_complete, (long long)a->in->b_complete);
